@@ -355,9 +355,9 @@ class PDFContentParser(PSStackParser[Union[PSKeyword, PDFStream]]):
                 eos = b"EI"
                 filter = d.get("F", None)
                 if filter is not None:
-                    if isinstance(filter, PSLiteral):
+                    if not isinstance(filter, list):
                         filter = [filter]
-                    if filter[0] in LITERALS_ASCII85_DECODE:
+                    if filter and filter[0] in LITERALS_ASCII85_DECODE:
                         eos = b"~>"
                 (pos, data) = self.get_inline_data(pos + len(b"ID "), target=eos)
                 if eos != b"EI":  # it may be necessary for decoding
